@@ -182,6 +182,9 @@ def c19_space(tier):
                     neg.append((f"{PFX[base]}{ds}U{w}", "value too large"))
                     if base != 16:
                         neg.append((f"{PFX[base]}{ds}B{w}", "value too large"))
+                    else:
+                        # hexadecimal Bits literals need the separating underscore (without it the B is a digit)
+                        neg.append((f"0x{ds.rstrip('_')}_B{w}", "value too large"))
     for w in (8, 64, 256):
         for lit in ["1a", "a", "1A_", "12f", "9a9", "1_a", "1.5", "1e3"]:
             neg.append((f"{lit}_U{w}", "digit not valid in base 10"))
